@@ -100,6 +100,7 @@ func c03PropTable(kind string, epoch phase0.Epoch) []c03Duty {
 }
 
 type c03Fetch struct {
+	req    int64 // instant of the request (the answer is given at `at`)
 	at     int64
 	epoch  phase0.Epoch
 	duties []c03Duty
@@ -163,8 +164,12 @@ func (w *c03World) AttesterDuties(_ context.Context, opts *api.AttesterDutiesOpt
 }
 
 func (w *c03World) ProposerDuties(_ context.Context, opts *api.ProposerDutiesOpts) (*api.Response[[]*apiv1.ProposerDuty], error) {
+	req := w.now()
+	if w.slowDuties && w.version == 1 {
+		mc.Sleep(int64(2 * time.Second)) // as for the attester duties
+	}
 	tab := c03PropTable(w.propKinds[w.version], opts.Epoch)
-	f := c03Fetch{at: w.now(), epoch: opts.Epoch}
+	f := c03Fetch{req: req, at: w.now(), epoch: opts.Epoch}
 	var out []*apiv1.ProposerDuty
 	for _, d := range tab {
 		f.duties = append(f.duties, d)
@@ -567,7 +572,20 @@ func c03Check(w *c03World, r *mc.Result) (v mc.Verdict) {
 					return fail(j.name+"/genesis-slot-duty-without-job", fmt.Sprintf("vouch waited for genesis and started with it; slot %d has a %s duty for %v but was never handled", s, j.name, dutiesAt(lf0)))
 				}
 				lf, _ := lastBefore(jobTime, false)
-				if want := dutiesAt(lf); len(want) > 0 && w.slotAt(lf.at) < s {
+				// a request for the epoch's duties that was under way when the job was due: its answer, not the one
+				// before, says what is owed (the clause on withdrawn jobs below judges it)
+				underWay := false
+				for i := range j.fetches {
+					if f := &j.fetches[i]; f.epoch == epoch && f.req != 0 && f.req < jobTime && f.at >= jobTime {
+						underWay = true
+						// the slot had a job (the earlier answer has a duty in it), the refresh withdrew it before it could
+						// run, and the answer then obtained still has a duty in the slot: a job is owed
+						if want := dutiesAt(f); len(want) > 0 && len(dutiesAt(lf)) > 0 && w.slotAt(lf.at) < s && w.slotAt(f.at) == s {
+							return fail(j.name+"/withdrawn-job-not-replaced", fmt.Sprintf("slot %d had a %s job, which a refresh withdrew before it could run; the duties then obtained (%d s into the slot) still have a duty for %v in it, but no job was set up again", s, j.name, (f.at-w.slotStart(s))/int64(time.Second), want))
+						}
+					}
+				}
+				if want := dutiesAt(lf); len(want) > 0 && w.slotAt(lf.at) < s && !underWay {
 					return fail(j.name+"/future-duty-without-job", fmt.Sprintf("slot %d has a %s duty for %v in the duties last obtained (in slot %d) but was never handled", s, j.name, want, w.slotAt(lf.at)))
 				}
 				// a job that existed and had not run when a reorg refresh withdrew it must be replaced by a job for
